@@ -151,17 +151,19 @@ func genLimit(thorough bool, r *lib.Rand, emit emitFn) {
 					}
 					emit(&Case{Kind: "limit", N: int64(N), WCap: -1, Srcs: []SrcSpec{sp}, Mode: "readall", Closes: 1})
 					emit(&Case{Kind: "limit", N: int64(N), WCap: -1, Srcs: []SrcSpec{sp}, Mode: "copywrap", Closes: 1})
+					emit(&Case{Kind: "limit", N: int64(N), WCap: -1, Srcs: []SrcSpec{sp}, Mode: "copy", Closes: 1})
 				}
 			}
 		}
 	}
+	genLimitZeroAtOffsets(thorough, emit)
 	// limits at the int64 boundary and "unlimited" idioms; negative limits
 	for _, N := range []int64{math.MaxInt64, math.MaxInt64 - 1, math.MaxInt32, math.MaxInt32 + 1, math.MaxUint32, 1 << 40} {
 		for L := 0; L <= 3; L++ {
 			for _, ch := range compositions(L) {
 				for style := 0; style < 4; style++ {
 					sp := SrcSpec{Content: content(L, 3), Script: ch, WithData: style&1 != 0, Boom: style&2 != 0, Closable: true}
-					for _, mode := range []string{"read", "readall", "copywrap"} {
+					for _, mode := range []string{"read", "readall", "copywrap", "copy"} {
 						emit(&Case{Kind: "limit", N: N, WCap: -1, Srcs: []SrcSpec{sp}, Mode: mode, Buf: 2, Closes: 1})
 					}
 				}
@@ -263,6 +265,7 @@ func genTee(thorough bool, emit emitFn) {
 					}
 					emit(&Case{Kind: "tee", WCap: wcap, WClos: wclos, Srcs: []SrcSpec{sp}, Mode: "readall", Closes: 1})
 					emit(&Case{Kind: "tee", WCap: wcap, WClos: wclos, Srcs: []SrcSpec{sp}, Mode: "copywrap", Closes: 1})
+					emit(&Case{Kind: "tee", WCap: wcap, WClos: wclos, Srcs: []SrcSpec{sp}, Mode: "copy", Closes: 1})
 				}
 			}
 		}
@@ -351,7 +354,7 @@ func genRandomLarge(count int, r *lib.Rand, emit emitFn) {
 }
 
 func pickMode(c *Case, r *lib.Rand, multi bool) {
-	n := 3
+	n := 4
 	if multi {
 		n = 5
 	}
@@ -425,6 +428,69 @@ func genWriteToFailingWriter(emit emitFn) {
 				emit(&Case{Kind: "multi", WCap: wcap, WClos: false, Srcs: []SrcSpec{a, b}, Mode: "ops", Ops: []string{"w", "c"}})
 				if wcap%2 == 0 {
 					emit(&Case{Kind: "multi", WCap: wcap, WClos: false, Srcs: []SrcSpec{a, b}, Mode: "ops", Ops: []string{"w", "r3", "w", "d2:", "c", "c"}})
+				}
+			}
+		}
+	}
+}
+
+// genLimitZeroAtOffsets: zero-length reads `(0, nil)` — one, and two in a row — at EVERY byte
+// offset k of the source, in particular exactly at N and N+1, for sources around and above the
+// limit, consumed by every consumer including io.Copy straight on the reader.  Three chunk shapes:
+//   ones:    1,1,…(k times),0[,0],1,1,…   the zero read sits at offset k whatever buffer sizes the
+//                                          consumer (or a fast path inside the reader) uses
+//   prefix:  k,0[,0]                        one full chunk up to k, zero read, rest uncapped
+//   prefix1: k,0[,0],1,1,…                  … rest byte by byte
+func genLimitZeroAtOffsets(thorough bool, emit emitFn) {
+	for N := 0; N <= 16; N++ {
+		lo := N
+		if thorough && N > 0 {
+			lo = N - 1
+		}
+		for L := lo; L <= N+3; L++ {
+			for k := 0; k <= L; k++ {
+				for z := 1; z <= 2; z++ {
+					zeros := make([]int, z)
+					for shape := 0; shape < 3; shape++ {
+						var sc []int
+						switch shape {
+						case 0:
+							for i := 0; i < k; i++ {
+								sc = append(sc, 1)
+							}
+							sc = append(sc, zeros...)
+							for i := k; i < L; i++ {
+								sc = append(sc, 1)
+							}
+						case 1:
+							if k > 0 {
+								sc = append(sc, k)
+							}
+							sc = append(sc, zeros...)
+						default:
+							if k > 0 {
+								sc = append(sc, k)
+							}
+							sc = append(sc, zeros...)
+							for i := k; i < L; i++ {
+								sc = append(sc, 1)
+							}
+						}
+						for style := 0; style < 4; style++ {
+							sp := SrcSpec{Content: content(L, N+1), Script: sc, WithData: style&1 != 0, Boom: style&2 != 0, Closable: true}
+							mk := func(mode string, buf int) {
+								emit(&Case{Kind: "limit", N: int64(N), WCap: -1, Srcs: []SrcSpec{sp}, Mode: mode, Buf: buf, Closes: 1})
+							}
+							mk("copy", 0)
+							mk("readall", 0)
+							mk("read", N+2)
+							if thorough {
+								mk("copywrap", 0)
+								mk("read", 1)
+								mk("read", N+1)
+							}
+						}
+					}
 				}
 			}
 		}
